@@ -295,7 +295,7 @@ fn mk_merge(a: &PsetL, b: &PsetL, tags: Vec<String>) -> Case {
 }
 /// fields whose presence changes the extracted transaction (hence normally the unique id)
 fn tx_relevant(map: &str, f: &str) -> bool {
-    matches!((map, f), ("G", "tx_data.fallback_locktime") | ("I", "final_script_sig") | ("I", "required_time_locktime") | ("I", "required_height_locktime")
+    matches!((map, f), ("G", "tx_data.fallback_locktime") | ("I", "required_time_locktime") | ("I", "required_height_locktime")
         | ("I", "issuance_value_amount") | ("I", "issuance_value_comm") | ("I", "issuance_inflation_keys") | ("I", "issuance_inflation_keys_comm")
         | ("I", "issuance_blinding_nonce") | ("I", "issuance_asset_entropy") | ("O", "amount") | ("O", "amount_comm") | ("O", "asset") | ("O", "asset_comm") | ("O", "ecdh_pubkey"))
 }
